@@ -164,6 +164,7 @@ CHECKS = {
              "reach": ["c05:settled"], "threads": True, "tier": "thorough"},
             {"harness": "HarnessC05Reuse", "params": {"sched": 1, "P": 1}, "reach": ["c05:second-request-returned"], "threads": True},
             {"harness": "HarnessC05SendFail", "params": {"sched": 1, "P": 1}, "reach": ["c05:first-attempt-returned"], "threads": True},
+            {"harness": "HarnessC05Overlap", "grid": {"P": [0, 1]}, "params": {"sched": 1}, "reach": ["c05:overlap-settled"], "threads": True},
             {"harness": "HarnessC05LateResponse", "grid": {"P": [0, 1]}, "params": {"sched": 1}, "reach": ["c05:late-response-attempt-returned"], "threads": True},
         ],
         "bounds": {"quick": {"requesters": 2, "responses": 2, "preemptions": 1}, "thorough": {"requesters": 2, "responses": 3, "preemptions": 2}},
